@@ -141,22 +141,20 @@ def r2(ctx):
     if s is None:
         return
     r = norm(s.ret)
-    fmtp = None
-    ok_case = False
-    if r[0] == 'ite':
-        m = match(call('<color::Color as core::cmp::PartialEq>::eq', ('param', 2), V('c')), r[1])
-        cases = dict(r[2])
-        if m is not None and m['c'] in (W, B):
-            t_br, f_br = cases.get('otherwise'), cases.get(0)
-            white_br = t_br if m['c'] == W else f_br
-            black_br = f_br if m['c'] == W else t_br
-            up = [x for x in walk(white_br) if x[0] == 'call' and x[1] == 'alloc::str::<impl str>::to_uppercase']
-            up_b = [x for x in walk(black_br) if x[0] == 'call' and 'to_uppercase' in x[1]]
-            pw, pb = fmt_parts(white_br), fmt_parts(black_br)
-            if up and not up_b and pw == [('arg', ('param', 1))] and pb == [('arg', ('param', 1))]:
-                ok_case = True
-    if not ok_case:
-        ctx.violation(R, 'piece::Piece::to_string', 'piece letter is not "display letter, upper-cased iff White": ' + sh(r, 300), where(s.body))
+    # per colour (however the colour test is spelled): White -> to_uppercase(display(piece)), Black -> display(piece)
+    white_br = specialise(ctx, s, {2: W}, nparams=2)
+    black_br = specialise(ctx, s, {2: B}, nparams=2)
+    up = [x for x in walk(white_br) if x[0] == 'call' and x[1] == 'alloc::str::<impl str>::to_uppercase']
+    up_b = [x for x in walk(black_br) if x[0] == 'call' and 'to_uppercase' in x[1]]
+    lo_w = [x for x in walk(white_br) if x[0] == 'call' and 'to_lowercase' in x[1]]
+    pw, pb = fmt_parts(white_br), fmt_parts(black_br)
+    undecided = any(x[0] == 'ite' for x in walk(white_br)) or any(x[0] == 'ite' for x in walk(black_br))
+    if undecided:
+        ctx.inconclusive(R, 'Piece::to_string: colour dispatch not resolved: ' + sh(r, 200))
+        return
+    if not (up and not up_b and not lo_w and pw == [('arg', ('param', 1))] and pb == [('arg', ('param', 1))]):
+        ctx.violation(R, 'piece::Piece::to_string', 'piece letter is not "display letter, upper-cased iff White": White -> %s, Black -> %s' % (
+            sh(white_br, 160), sh(black_br, 160)), where(s.body))
         return
     writer = {}
     for p, l in letters.items():
@@ -235,12 +233,9 @@ def r2(ctx):
             if x[0] == 'ite' and x[1] == ('discr', ('mem', ('p', 1))):
                 table = {ctx.facts().enum_variant('castle_rights::CastleRights', v): leaf[1] for v, leaf in x[2]
                          if v != 'otherwise' and leaf[0] == 'str'}
-        m = match(call('<color::Color as core::cmp::PartialEq>::eq', ('param', 2), V('c')), r[1]) if r[0] == 'ite' else None
-        upper_white = False
-        if m is not None and m['c'] == W:
-            cases = dict(r[2])
-            upper_white = any(x[0] == 'call' and 'to_uppercase' in x[1] for x in walk(cases['otherwise'])) and \
-                not any(x[0] == 'call' and 'to_uppercase' in x[1] for x in walk(cases[0]))
+        wb, bbr = specialise(ctx, s, {2: W}, nparams=2), specialise(ctx, s, {2: B}, nparams=2)
+        has_up = lambda e: any(x[0] == 'call' and 'to_uppercase' in x[1] for x in walk(e))
+        upper_white = has_up(wb) and not has_up(bbr)
         if table == {'NoRights': '', 'KingSide': 'k', 'QueenSide': 'q', 'Both': 'kq'} and upper_white:
             ctx.ok(R, "writer castling letters: '' k q kq, upper-cased for White", where(s.body))
         else:
@@ -446,6 +441,9 @@ def r4(ctx):
         okp = False
         for l_ in loops:
             require_no_break(ctx, R, s, l_, FROMB, 'the squares', 'the pieces on the remaining squares are not copied')
+        if not loops:
+            ctx.inconclusive(R, 'Board -> builder: the squares are not visited by a `for` loop (iterator-adaptor form is not analysed)')
+            okp = None
         if len(loops) == 1 and 'ALL_SQUARES' in sh(loops[0]['source'], 200):
             SQ = ('mem', ('h', norm(loops[0]['elem'])))
             for c in s.calls:
@@ -459,6 +457,8 @@ def r4(ctx):
                         okp = True
         if okp:
             ctx.ok(R, 'Board -> builder: every square of ALL_SQUARES with piece_on == Some contributes (sq, piece_on, color_on)', w)
+        elif okp is None:
+            pass
         else:
             ctx.violation(R, FROMB + ':pieces', 'the piece list is not built from piece_on / color_on over ALL_SQUARES', w)
     # setup(): slots
@@ -501,6 +501,9 @@ def r4(ctx):
         okx = False
         for l_ in loops:
             require_no_break(ctx, R, s, l_, TRYF, 'the squares', 'the pieces on the remaining squares are not placed')
+        sqloops = [l_ for l_ in loops if 'ALL_SQUARES' in sh(l_['source'], 200)]
+        if len(sqloops) == 1:
+            loops = sqloops
         if len(loops) == 1 and 'ALL_SQUARES' in sh(loops[0]['source'], 200):
             SQ = ('mem', ('h', norm(loops[0]['elem'])))
             slot = call('<board_builder::BoardBuilder as core::ops::index::Index<square::Square>>::index', ('param', 1), SQ)
@@ -524,7 +527,16 @@ def r4(ctx):
         pairs = sorted((sh(c['argvals'][1], 40), sh(c['argvals'][2], 120)) for c in adds)
         want = sorted([('Color::White', 'board_builder::BoardBuilder::get_castle_rights(arg1, Color::White)'),
                        ('Color::Black', 'board_builder::BoardBuilder::get_castle_rights(arg1, Color::Black)')])
-        if pairs == want:
+        colour_loop = [l_ for l_ in for_loops(s) if 'ALL_COLORS' in sh(l_['source'], 200)]
+        per_colour = False
+        if len(adds) == 1 and len(colour_loop) == 1 and adds[0]['blk'] in colour_loop[0]['blocks'] and not break_exits(s, colour_loop[0]):
+            c_ = norm(adds[0]['argvals'][1])
+            if match(call('board_builder::BoardBuilder::get_castle_rights', ('param', 1), c_), norm(adds[0]['argvals'][2])) is not None and \
+                    c_ in (norm(colour_loop[0]['elem']), ('mem', ('h', norm(colour_loop[0]['elem'])))) and \
+                    not [g for g in guards(s, adds[0]['blk'], transitive=False) if g['cond'] is not None and g['blk'] in colour_loop[0]['blocks']
+                         and g['blk'] not in ctrl_blocks(s, colour_loop[0])]:
+                per_colour = True
+        if pairs == want or per_colour:
             ctx.ok(R, 'builder -> Board: rights of White/Black added to the same colour', w)
         else:
             ctx.violation(R, TRYF + ':rights', 'castling rights are copied as %s' % pairs, w)
